@@ -10,6 +10,7 @@ import (
 	"github.com/vmware/go-ipfix/pkg/intermediate"
 
 	"verifharness/ev"
+	"verifharness/glue"
 )
 
 // XOp is one action of an expiry/correlation history.
@@ -45,6 +46,8 @@ type XCase struct {
 	// MaxRetries, when set, is assigned to the package's exported MaxRetries setting for this
 	// history (unset: the default of 2)
 	MaxRetries *int `json:"max_retries,omitempty"`
+	// Verbosity: the process-wide log verbosity while the history runs (output discarded)
+	Verbosity int `json:"verbosity,omitempty"`
 	// NoAggregation: the process is configured without AggregateElements (it correlates and
 	// expires flows but keeps no statistics)
 	NoAggregation bool `json:"no_aggregation,omitempty"`
@@ -63,6 +66,10 @@ func RunX(c XCase, st *XStats) *ev.Failure {
 		st = &XStats{}
 	}
 	st.firstSides = map[string]bool{}
+	if c.Verbosity > 0 {
+		glue.SetKlogVerbosity(c.Verbosity)
+		defer glue.SetKlogVerbosity(0)
+	}
 	a, in := time.Duration(c.ActiveSec)*time.Second, time.Duration(c.InactiveSec)*time.Second
 	intermediate.MaxRetries = 2
 	if c.MaxRetries != nil {
@@ -158,7 +165,23 @@ func RunX(c XCase, st *XStats) *ev.Failure {
 					failing[fi] = true
 				}
 			}
-			err := ap.ForAllExpiredFlowRecordsDo(func(k intermediate.FlowKey, r *intermediate.AggregationFlowRecord) error {
+			scan := ap.ForAllExpiredFlowRecordsDo
+			if c.Verbosity > 0 {
+				// with the library's log statements switched on a scan must still come back: it is run
+				// under a watchdog (a scan that never returns keeps the process lock for good)
+				scan = func(cb intermediate.FlowKeyRecordMapCallBack) error {
+					done := make(chan error, 1)
+					go func() { done <- ap.ForAllExpiredFlowRecordsDo(cb) }()
+					select {
+					case err := <-done:
+						return err
+					case <-time.After(15 * time.Second):
+						cbFail = ev.Failf("op %d: HUNG: the expiry scan did not return within 15 s (log verbosity %d, callbacks so far %v): it still holds the process lock", i, c.Verbosity, cbs)
+						return nil
+					}
+				}
+			}
+			err := scan(func(k intermediate.FlowKey, r *intermediate.AggregationFlowRecord) error {
 				fi, ok := keyToFlow[k]
 				if !ok {
 					cbFail = ev.Failf("op %d: callback with an unknown key %+v", i, k)
